@@ -134,7 +134,8 @@ def main(argv):
 
     atheris.Setup([sys.argv[0], "-seed=%d" % (seed + 1), "-runs=%d" % (
         runs + 5000), "-max_len=512", "-timeout=120", "-rss_limit_mb=3000",
-        "-print_final_stats=0", "-verbosity=0"], one)
+        "-print_final_stats=0", "-verbosity=0",
+        "-artifact_prefix=%s/" % outdir], one)
     atheris.Fuzz()
     return 0
 
